@@ -5,8 +5,8 @@
    observed (direct oracles).  PARTIAL: the Fourier integrals behind the Fresnel pair and the Gaussian beam
    (FT exp(i a r^2) = (i pi / a) exp(-i pi^2 f^2 / a)) are cited, their algebra is proved. *)
 From Coq Require Import Reals QArith Qreals List Lra Psatz.
-From Coquelicot Require Import Complex.
-From OdakV Require Import Base.RealAux Wave.Fields Wave.Kernels C04.Model C04.Lemmas.
+From Coquelicot Require Import Coquelicot.
+From OdakV Require Import Base.RealAux Wave.Fields Wave.Kernels C04.Model C04.Lemmas C04.Paraxial.
 Open Scope R_scope.
 
 (* ---- the Fresnel transfer function is the paraxial expansion of the angular spectrum *)
@@ -81,6 +81,28 @@ Theorem C04_gauss_conj_overlap : forall k w0 z, k <> 0 -> w0 <> 0 ->
   n2 (Cdiv (RtoC (2 * fst (Cinv (gq k w0 z)))) (Cmult (RtoC 2) (Cinv (gq k w0 z)))) = 1 / (1 + (z / zR k w0) ^ 2).
 Proof. exact gauss_conj_overlap. Qed.
 
+(* ---- the closed form (UU + i VV = (w0^2 / s) exp (- (x^2 + y^2) / s), OdakV.C04.Paraxial) solves the paraxial wave equation
+   u_z = (i / 2k) (u_xx + u_yy) with the Gaussian waist as initial value, and every plane-wave component multiplied by the
+   Fresnel transfer function solves the same equation: the kernel is the exact propagator of the equation of the closed form *)
+Theorem C04_gauss_solves_paraxial : forall k w0, w0 <> 0 -> forall x y z,
+  Derive (fun t => UU k w0 x y t) z = - (cc k / 4) * (Derive_n (fun t => VV k w0 t y z) 2 x + Derive_n (fun t => VV k w0 x t z) 2 y) /\
+  Derive (fun t => VV k w0 x y t) z = (cc k / 4) * (Derive_n (fun t => UU k w0 t y z) 2 x + Derive_n (fun t => UU k w0 x t z) 2 y).
+Proof. exact gauss_solves_paraxial. Qed.
+Theorem C04_gauss_initial : forall k w0, w0 <> 0 -> forall x y,
+  UU k w0 x y 0 = exp (- ((x ^ 2 + y ^ 2) / w0 ^ 2)) /\ VV k w0 x y 0 = 0.
+Proof. exact gauss_initial. Qed.
+Theorem C04_gauss_field_parts : forall k w0, k <> 0 -> w0 <> 0 -> forall q z,
+  Cmult (Cdiv (RtoC (w0 ^ 2)) (gq k w0 z)) (Cmult (RtoC (exp (- (q / gauss_w2 k w0 z)))) (Cexpi (gauss_beta k w0 z * q))) = (UQ k w0 q z, VQ k w0 q z).
+Proof. exact gauss_field_parts. Qed.
+Theorem C04_mode_is_transfer_function : forall lam fx fy x y z,
+  (MA lam fx fy x y z, MB lam fx fy x y z) =
+  Cmult (Cexpi (2 * PI * (fx * x + fy * y))) (Cmult (Cexpi (ph_tf lam z fx fy)) (Cexpi (- (wavenum lam * z)))).
+Proof. exact mode_is_transfer_function. Qed.
+Theorem C04_mode_solves_paraxial : forall lam fx fy, lam <> 0 -> forall x y z,
+  Derive (fun t => MA lam fx fy x y t) z = - (2 / wavenum lam / 4) * (Derive_n (fun t => MB lam fx fy t y z) 2 x + Derive_n (fun t => MB lam fx fy x t z) 2 y) /\
+  Derive (fun t => MB lam fx fy x y t) z = (2 / wavenum lam / 4) * (Derive_n (fun t => MA lam fx fy t y z) 2 x + Derive_n (fun t => MA lam fx fy x t z) 2 y).
+Proof. exact mode_solves_paraxial. Qed.
+
 (* ---- the library's lens focuses at +f *)
 Theorem C04_lens_focus : forall k f z, k <> 0 -> f <> 0 -> z <> 0 -> (lens_quad k f + ir_quad k z = 0 <-> z = f).
 Proof. exact lens_focus. Qed.
@@ -95,7 +117,7 @@ Theorem C04_lens_gauss_spot : forall k w0 f, k <> 0 -> w0 <> 0 -> f <> 0 ->
 Proof. exact lens_gauss_spot. Qed.
 
 (* ---- regression statements about the three defects repaired for this property: each of them put the focus at -f
-   (conjugated Fresnel transfer function, 849454b; NumPy lens exp(+i k/2 sin(r^2/f)), b1b653d) *)
+   (conjugated Fresnel transfer function, 849454b; NumPy lens exp(+i k/2 sin(r^2/f)), b9918cf) *)
 Theorem C04_tf_legacy_backwards : forall lam z fx fy, ph_tf_legacy lam z fx fy = ph_tf lam (- z) fx fy.
 Proof. exact tf_legacy_is_backwards. Qed.
 Theorem C04_lens_focus_conjugated : forall k f z, k <> 0 -> f <> 0 -> z <> 0 -> (lens_quad k f + ir_quad k (- z) = 0 <-> z = - f).
